@@ -1,4 +1,4 @@
-(* C14 phase 2: agreement of the two reader models on modules without blackbox instances (part A2) *)
+(* C14 phase 2: agreement of the two reader models on the documented subset (part A2) *)
 From stdpp Require Import strings gmap sets pretty.
 From CG Require Import Model.FastVerilog Proofs.FastVerilogProofs.
 From CG Require Import Proofs.FvA0 Proofs.FvA1.
@@ -64,4 +64,10 @@ Proof.
     destruct (decide (m ∈ fi ∧ m ∉ dom g)); simpl.
     + unfold upd_fi, mk_node. simpl. do 2 f_equal. set_solver.
     + destruct (g !! m) as [[ty0 o0 fi0]|]; simpl; [|done]. unfold upd_fi. simpl. do 2 f_equal. set_solver.
+Qed.
+
+Lemma add_plain_fresh g n t : n ∉ dom g → t ∈ supported_types → okname n → add_plain g n t = Ok (<[n := mk_node t false ∅]> g).
+Proof.
+  intros Hn Ht [Hne Hd]. unfold add_plain. rewrite add_g_nil. rewrite (bool_decide_eq_false_2 _ Hn), (bool_decide_eq_true_2 _ Ht).
+  cbn [negb]. rewrite (bool_decide_eq_false_2 _ Hne), Hd. unfold fanin. apply not_elem_of_dom in Hn. by rewrite Hn.
 Qed.
